@@ -33,6 +33,8 @@ using namespace verif;
 using namespace rref;
 
 typedef Ref< Q > RefQ;
+typedef long double LD;
+typedef Ref< LD > RefL;
 static const double EPS = DBL_EPSILON;
 
 // ---------------------------------------------------------------------------
@@ -104,7 +106,7 @@ struct Acc {
   double worst[O_COUNT] = {0};
   uint64_t regions[REG_NONE + 1] = {0};
   uint64_t kinds[5] = {0};
-  uint64_t newton = 0, brent = 0, limit_ties = 0, crowded = 0;
+  uint64_t newton = 0, brent = 0, limit_ties = 0, crowded = 0, underflow = 0;
   void note(int o, double ratio) {
     ++checks[o];
     if (ratio > 0.1 && ratio <= 1.)
@@ -117,8 +119,9 @@ struct Acc {
 struct Ctx {
   Prob P;
   const ExactRiemannSolver *S;
-  RefQ ref;
-  std::vector< Wave< Q > > waves;
+  RefQ ref;  // star region solved in __float128
+  RefL refl; // the same solution, sampled in long double
+  std::vector< Wave< LD > > waves;
   double aL, aR, asum;
   double relp;    // relative uncertainty of p* (stated accuracy + conditioning)
   double tol_u;   // propagated uncertainty of u*
@@ -132,7 +135,7 @@ struct Ctx {
 
 /// position uncertainty of a wave (beyond it both neighbouring regions are
 /// accepted)
-static double wave_h(const Ctx &C, const Wave< Q > &w) {
+static double wave_h(const Ctx &C, const Wave< LD > &w) {
   const int k = w.side > 0;
   const double uK = k ? C.P.uR : C.P.uL, aK = k ? C.aR : C.aL;
   switch (w.type) {
@@ -154,8 +157,8 @@ static double wave_h(const Ctx &C, const Wave< Q > &w) {
 /// reference state of a region and the tolerances that belong to it
 static void ref_state(const Ctx &C, int reg, double xi, double &r, double &u, double &p, double &tr,
                       double &tu, double &tp) {
-  Q rq, uq, pq;
-  C.ref.state(reg, (Q)xi, rq, uq, pq);
+  LD rq, uq, pq;
+  C.refl.state(reg, (LD)xi, rq, uq, pq);
   r = (double)rq;
   u = (double)uq;
   p = (double)pq;
@@ -187,8 +190,8 @@ static void ref_state(const Ctx &C, int reg, double xi, double &r, double &u, do
     // as an interval so that the vacuum front (base -> 0) needs no special case
     const double t1 = 2. / (g + 1.), t2 = (g - 1.) / (g + 1.) * (std::fabs(uK) + std::fabs(xi)) / aK;
     const double sgn = k ? 1. : -1.;
-    const double base = (double)((Q)(g - 1.) / (Q)(g + 1.) * (Q)sgn * ((Q)xi - C.ref.front[k]) /
-                                 C.ref.a[k]);
+    const double base = (double)((LD)(g - 1.) / (LD)(g + 1.) * (LD)sgn * ((LD)xi - C.refl.front[k]) /
+                                 C.refl.a[k]);
     const double b = std::max(base, 0.);
     const double db = 16. * EPS * (t1 + t2);
     const double e1 = 2. / (g - 1.), e2 = 2. * g / (g - 1.);
@@ -231,7 +234,7 @@ static bool at_vacuum_front(const Ctx &C, double xi) {
                                  (double)(C.ref.astar[1] / C.ref.a[1]) < 64. * EPS);
   for (const auto &w : C.waves)
     if ((w.type == W_FRONT || (empty_star && (w.type == W_TAIL || w.type == W_CONTACT))) &&
-        std::fabs((double)((Q)xi - w.speed)) <=
+        std::fabs((double)((LD)xi - w.speed)) <=
             128. * EPS * (std::fabs(xi) + C.asum * 2. / (C.P.g - 1.)))
       return true;
   return false;
@@ -252,7 +255,10 @@ static SampleOut check_sample(Ctx &C, double xi, const char *what) {
   out.s = run_solver(*C.S, C.P, xi);
   const St &s = out.s;
   ++A.evals;
-  const int reg = C.ref.region((Q)xi);
+  int reg = C.waves[0].left;
+  for (const auto &w : C.waves)
+    if ((LD)xi >= w.speed)
+      reg = w.right;
   ++A.regions[reg];
   if (reg != REG_L && reg != REG_R)
     ++A.nontrivial;
@@ -277,7 +283,7 @@ static SampleOut check_sample(Ctx &C, double xi, const char *what) {
   cand[nc++] = reg;
   bool either = false;
   for (const auto &w : C.waves) {
-    if (std::fabs((double)((Q)xi - w.speed)) <= wave_h(C, w)) {
+    if (std::fabs((double)((LD)xi - w.speed)) <= wave_h(C, w)) {
       for (int rr : {w.left, w.right}) {
         bool have = false;
         for (int i = 0; i < nc; ++i)
@@ -310,7 +316,7 @@ static SampleOut check_sample(Ctx &C, double xi, const char *what) {
     // carries no information
     if (cand[i] != REG_VAC && !(r <= tr && s.r <= tr))
       cmp(s.u, u, tu);
-    if (ratio < best) {
+    if (ratio < best || i == 0) {
       best = ratio;
       bestreg = cand[i];
       br = r, bu = u, bp = p, btr = tr, btu = tu, btp = tp;
@@ -440,8 +446,18 @@ static void check_problem(const ExactRiemannSolver &S, const Prob &P, Result &R,
   C.R = &R;
   C.A = &A;
   const double g = P.g;
-  C.ref.setup((Q)g, (Q)P.rL, (Q)P.uL, (Q)P.pL, (Q)P.rR, (Q)P.uR, (Q)P.pR);
-  C.waves = C.ref.waves();
+  // bisection in long double first, then in __float128 inside the (verified)
+  // bracket around that root
+  C.refl.setup((LD)g, (LD)P.rL, (LD)P.uL, (LD)P.pL, (LD)P.rR, (LD)P.uR, (LD)P.pR);
+  if (C.refl.kind == K_NORMAL) {
+    const LD y0 = C.refl.ystar;
+    const LD hw = 1e-15L * (fabsl(y0) + 1.L);
+    C.ref.setup((Q)g, (Q)P.rL, (Q)P.uL, (Q)P.pL, (Q)P.rR, (Q)P.uR, (Q)P.pR, true, (Q)y0, (Q)hw);
+  } else {
+    C.ref.setup((Q)g, (Q)P.rL, (Q)P.uL, (Q)P.pL, (Q)P.rR, (Q)P.uR, (Q)P.pR);
+  }
+  C.refl.adopt(C.ref);
+  C.waves = C.refl.waves();
   C.aL = (double)C.ref.a[0];
   C.aR = (double)C.ref.a[1];
   C.asum = C.aL + C.aR;
@@ -490,6 +506,11 @@ static void check_problem(const ExactRiemannSolver &S, const Prob &P, Result &R,
   }
   if (C.code_vacgen)
     C.pattern = "vacuum-generation";
+  else if (ref.kind == K_NORMAL && !((double)ref.pstar >= DBL_MIN)) {
+    // the root of the pressure equation is not representable as a normal double
+    C.pattern += ":star-pressure-underflow";
+    ++A.underflow;
+  }
   if (verbose) {
     printf("%s\n reference: kind %d pattern %s", prob_text(P).c_str(), ref.kind, C.pattern.c_str());
     if (ref.kind == K_NORMAL)
@@ -615,7 +636,7 @@ static void check_problem(const ExactRiemannSolver &S, const Prob &P, Result &R,
 
   // ---- one-sided continuity at weak waves ---------------------------------
   for (const auto &pr : pairs) {
-    const Wave< Q > &w = C.waves[pr.wave];
+    const Wave< LD > &w = C.waves[pr.wave];
     if (w.type == W_SHOCK || w.type == W_CONTACT)
       continue;
     const SampleOut &a = outs[pr.lo], &b = outs[pr.hi];
@@ -639,8 +660,8 @@ static void check_problem(const ExactRiemannSolver &S, const Prob &P, Result &R,
     // slope of the fan next to the wave (evaluated on both sides, extended)
     double sr = 0., sp = 0.;
     for (size_t j : {pr.lo, pr.hi}) {
-      Q rq, uq, pq;
-      ref.state(fanreg, (Q)xis[j].xi, rq, uq, pq);
+      LD rq, uq, pq;
+      C.refl.state(fanreg, (LD)xis[j].xi, rq, uq, pq);
       if (rq > 0) {
         const double aa = std::sqrt(P.g * (double)pq / (double)rq);
         sr = std::max(sr, (double)rq * 2. / ((P.g + 1.) * aa));
@@ -825,6 +846,7 @@ int main(int argc, char **argv) {
     T.brent += a.brent;
     T.limit_ties += a.limit_ties;
     T.crowded += a.crowded;
+    T.underflow += a.underflow;
     for (int o = 0; o < O_COUNT; ++o) {
       T.checks[o] += a.checks[o];
       T.near[o] += a.near[o];
@@ -847,6 +869,7 @@ int main(int argc, char **argv) {
   R.set("aborts", (double)T.aborts);
   R.set("vacuum_limit_decided_differently_in_double", (double)T.limit_ties);
   R.set("continuity_pairs_skipped_coincident_waves", (double)T.crowded);
+  R.set("problems_star_pressure_below_double_range", (double)T.underflow);
   for (int o = 0; o < O_COUNT; ++o) {
     R.set(std::string("checks_") + oname[o], (double)T.checks[o]);
     R.set(std::string("within_10x_of_tolerance_") + oname[o], (double)T.near[o]);
